@@ -1,7 +1,7 @@
 """C09 — JWT encode/decode is faithful and yields only JSON-object claims."""
 import copy, json, datetime, math, struct, base64
 import lib
-from lib import c_hex, c_str, c_Z, c_list, c_pv, c_exn, exn_class
+from lib import c_hex, c_Z, c_list, c_exn, exn_class, c_flt, c_bool
 
 TD = datetime.timedelta
 UTC = datetime.timezone.utc
@@ -9,6 +9,53 @@ EPOCH_AWARE = datetime.datetime(1970, 1, 1, tzinfo=UTC)
 EPOCH_NAIVE = datetime.datetime(1970, 1, 1)
 MIN_SECS, MAX_SECS = -62135596800, 253402300799      # 0001-01-01T00:00:00 .. 9999-12-31T23:59:59
 ND_KEYS = ("exp", "nbf", "iat")                      # from the property text
+
+
+# --------------------------------------------------------------------------
+# Coq printers with interned strings: string literals dominate the time and memory coqc needs
+# for a generated case file, so the strings of the generator pools are defined once per file
+# --------------------------------------------------------------------------
+INTERN = {}
+
+
+def intern_pool(strings):
+    for x in strings:
+        if isinstance(x, str) and x not in INTERN:
+            INTERN[x] = "s%d_" % len(INTERN)
+
+
+def preamble():
+    return "\n".join("Definition %s : list N := %s." % (nm, lib.c_str(x)) for x, nm in INTERN.items()) + "\n"
+
+
+def c_str(x):
+    return INTERN.get(x) or lib.c_str(x)
+
+
+def c_pv(v):
+    """lib.c_pv with interned strings (fail-closed on anything that is not a JSON-ish value)"""
+    if v is None:
+        return "PNone"
+    if v is True or v is False:
+        return "(PBool %s)" % c_bool(v)
+    if isinstance(v, int):
+        return "(PInt %s)" % c_Z(v)
+    if isinstance(v, float):
+        return "(PFloat %s)" % c_flt(v)
+    if isinstance(v, str):
+        return "(PStr %s)" % c_str(v)
+    if isinstance(v, (bytes, bytearray)):
+        return "(PBytes %s)" % c_hex(bytes(v))
+    if isinstance(v, (list, tuple)):
+        return "(PList %s)" % c_list([c_pv(x) for x in v])
+    if isinstance(v, dict):
+        items = []
+        for k, x in v.items():
+            if not isinstance(k, str):
+                raise TypeError("c_pv: non-str dict key %r" % (k,))
+            items.append("(%s, %s)" % (c_str(k), c_pv(x)))
+        return "(PDict %s)" % c_list(items)
+    raise TypeError("c_pv: cannot render %r" % (type(v),))
 
 
 # --------------------------------------------------------------------------
@@ -76,9 +123,76 @@ def c_blob(b):
     if isinstance(b, str):
         b = b.encode("utf-8")
     b = bytes(b)
-    if len(b) <= 24:
-        return c_hex(b)
-    return c_hex(b"\xff\xff" + hashlib.sha256(b).digest()[:14])
+    # one-element octet-string "name": the digest as a single number (number literals are much
+    # cheaper for coqc than string literals)
+    return "[0x%s]" % hashlib.sha256(b).hexdigest()[:30]
+
+
+def _list_spans(term):
+    """(start, end) of every balanced [...] outside string literals"""
+    spans, stack, i, n = [], [], 0, len(term)
+    while i < n:
+        ch = term[i]
+        if ch == '"':
+            i = term.index('"', i + 1)
+        elif ch == "[":
+            stack.append(i)
+        elif ch == "]":
+            spans.append((stack.pop(), i + 1))
+        i += 1
+    return spans
+
+
+def share(term, minlen=48):
+    """Bind list sub-terms that occur several times in a case (header before/after, claims and
+    their JSON image, ...) with let: the generated files get much smaller."""
+    from collections import Counter
+    cnt = Counter(term[a:b] for a, b in _list_spans(term) if b - a >= minlen)
+    lets = []
+    for t in sorted((t for t, c in cnt.items() if c >= 2), key=len, reverse=True):
+        if term.count(t) >= 2:
+            name = "sh%d_" % len(lets)
+            term = term.replace(t, name)
+            lets.append((name, t))
+    if not lets:
+        return term
+    return "(" + "".join("let %s := %s in " % (nm, t) for nm, t in lets) + term + ")"
+
+
+def shard_bounds(cases, shard, max_chars):
+    bounds, start, size = [], 0, 0
+    for i, c in enumerate(cases):
+        if i > start and (i - start >= shard or size + len(c) > max_chars):
+            bounds.append((start, i)); start, size = i, 0
+        size += len(c)
+    if cases:
+        bounds.append((start, len(cases)))
+    return bounds
+
+
+def run_eval(ev, cases):
+    """CoqEval; shards whose coqc died (out of memory / time on a loaded machine) are retried
+    with 2 jobs, then one at a time."""
+    res = ev.run(cases, jobs=8)
+    ends = dict(shard_bounds(cases, ev.shard, ev.max_chars))
+    for jobs in (2, 1):
+        if not res["errors"]:
+            break
+        errors = []
+        for si, err in res["errors"]:
+            sj = ends.get(si)
+            if sj is None:
+                errors.append((si, err))
+                continue
+            sub = ev.run(cases[si:sj], jobs=jobs)
+            res["evaluated"] += sub["evaluated"]
+            res["failing"] += [si + i for i in sub["failing"]]
+            for k, v in sub["shows"].items():
+                res["shows"][si + k] = v
+            errors += [(si, e) for k, e in sub["errors"]]
+        res["errors"] = errors
+    res["failing"].sort()
+    return res
 
 
 def c_some(x):
@@ -333,6 +447,23 @@ FREE_EXTRAS = [("foo", [1, {"a": None}]), ("ünï", "✓"), ("n", 2 ** 70), ("f"
 TYPS = ["JWT", "at+jwt", "jwt", "", "JOSE", "application/jwt", "dpop+jwt", "é\U0001F600"]
 
 
+def _strings_of(v):
+    if isinstance(v, str):
+        yield v
+    elif isinstance(v, (list, tuple)):
+        for x in v:
+            yield from _strings_of(x)
+    elif isinstance(v, dict):
+        for k, x in v.items():
+            yield k
+            yield from _strings_of(x)
+
+
+intern_pool(STRS + KEYS + TYPS + list(_strings_of(REG_EXTRAS)) + list(_strings_of(FREE_EXTRAS)) +
+            ["alg", "enc", "typ", "kid", "JWT", "p2c", "p2s", "epk", "iv", "tag", "kty", "crv", "x", "y", "EC", "P-256",
+             "1700000000", "2030-01-01", "admin", "alice", "JWT2"])
+
+
 def gen_header(rng, base, kids, form):
     """-> (header dict, strict)"""
     items = list(base.items())
@@ -441,10 +572,9 @@ def run(ctx):
     from joserfc.errors import InvalidPayloadError
     from joserfc.rfc7519.claims import convert_claims
     ok, log = ctx.prove(extra_targets=["model/C09Cases.vo"])
-    import time as _t
-    print("prove done at %.1fs ok=%s" % (_t.time() - ctx.t0, ok))
     rng = ctx.rng
     W = World(rng)
+    intern_pool([k.kid for ks in W.keys.values() for k in ks] + list(_strings_of([t[2] for t in W.transports])))
 
     cases, meta = [], []
     dist = {"encode_ok": 0, "encode_err": 0, "decode_ok": 0, "decode_err": 0, "convert": 0, "numericdate": 0,
@@ -453,7 +583,7 @@ def run(ctx):
             "datetime_claims": 0, "contract_points_json": 0, "contract_points_transport": 0}
 
     def add(term, m):
-        cases.append(term)
+        cases.append(share(term))
         meta.append(m)
 
     def descr(h, c, tname, form):
@@ -609,7 +739,7 @@ def run(ctx):
             return "None"
 
     forms = ["key", "keyset", "callable", "callable-keyset"]
-    n_rt = ctx.scale(520, 30000)
+    n_rt = ctx.scale(400, 6000)
     combos = [(t, f) for t in W.transports for f in forms]
     for i in range(n_rt):
         tr_, form = combos[i % len(combos)] if i < 2 * len(combos) else rng.choice(combos)
@@ -715,7 +845,7 @@ def run(ctx):
             one_nd(datetime.datetime(d.year, d.month, d.day, rng.choice([0, 23]), rng.choice([0, 59]), rng.choice([0, 59]),
                                      rng.choice([0, 999999]), tzinfo=z), "exp")
             d += TD(days=1)
-    for _ in range(ctx.scale(250, 8000)):
+    for _ in range(ctx.scale(200, 4000)):
         one_convert(gen_claims(rng))
     for c in directed:
         one_convert(dict(c))
@@ -791,12 +921,6 @@ def run(ctx):
         if len(payload) < 4000:
             bad_tokens.append((tr_, tok, payload, reg))
 
-    # accepted by json.loads although not RFC 8259 JSON text / not UTF-8: followed by the model only
-    AMBIGUOUS = ['{"a":1}'.encode("utf-16"), '{"a":1}'.encode("utf-32-le"), b'\xef\xbb\xbf{"a":1}', b'{"a":NaN}', b'{"a":-Infinity}',
-                 b'{"a":"\xed\xa0\x80"}', b'{"a":1,"a":2}', b' {"a":1}\n', b'[NaN]', '[1]'.encode("utf-16"), b'{"a":1e999}']
-    for tr_ in (W.transports[0], W.transports[6]):
-        for p in AMBIGUOUS:
-            one_payload(tr_, p, True, ambiguous=True)
     for tr_ in neg_transports:
         for p in NON_OBJECT:
             one_payload(tr_, p, True)
@@ -804,6 +928,13 @@ def run(ctx):
             if len(p) > 100000 and tr_ is not neg_transports[0] and tr_ is not neg_transports[2]:
                 continue
             one_payload(tr_, p, False)
+
+    # accepted by json.loads although not RFC 8259 JSON text / not UTF-8: followed by the model only
+    AMBIGUOUS = ['{"a":1}'.encode("utf-16"), '{"a":1}'.encode("utf-32-le"), b'\xef\xbb\xbf{"a":1}', b'{"a":NaN}', b'{"a":-Infinity}',
+                 b'{"a":"\xed\xa0\x80"}', b'{"a":1,"a":2}', b' {"a":1}\n', b'[NaN]', '[1]'.encode("utf-16"), b'{"a":1e999}']
+    for tr_ in (W.transports[0], W.transports[6]):
+        for p in AMBIGUOUS:
+            one_payload(tr_, p, True, ambiguous=True)
 
     # ---------------------------------------------------------------- integrity first: tampered tokens, wrong keys
     ALPHA = "ABCDEFGHIJKLMNOPQRSTUVWXYZabcdefghijklmnopqrstuvwxyz0123456789-_"
@@ -870,7 +1001,7 @@ def run(ctx):
                               "jwt.decode of a %s token with tampered %s %s (the payload must not be looked at before the integrity check passed)" % (
                                   tname, what, "returned claims %r" % (d[1].claims,) if d[0] == "ok" else "raised InvalidPayloadError"),
                               {"kind": "tamper", "transport": tname, "what": what, "token": tt, "original": tok,
-                               "payload_hex": payload.hex()})
+                               "payload_hex": payload.hex(), "jwk": key.as_dict(private=True)})
         if len(W.keys[fam]) > 1:
             wrong = W.keys[fam][1]
             d = call(jwt.decode, tok, wrong, registry=reg)
@@ -881,7 +1012,8 @@ def run(ctx):
                                "transport_kind": kind},
                               "jwt.decode of a %s token with the wrong key %s" % (
                                   tname, "returned claims" if d[0] == "ok" else "raised InvalidPayloadError"),
-                              {"kind": "wrong-key", "transport": tname, "token": tok, "payload_hex": payload.hex()})
+                              {"kind": "wrong-key", "transport": tname, "token": tok, "payload_hex": payload.hex(),
+                               "jwk": wrong.as_dict(private=True)})
 
     # ---------------------------------------------------------------- correspondence
     ctx.coverage["rule"] = ("model C09Jwt.encode/decode/convert_claims/numericdate evaluated by vm_compute on every recorded "
@@ -892,15 +1024,14 @@ def run(ctx):
     for i in (0, len(cases) // 3, len(cases) // 2, len(cases) - 1):
         if cases:
             ctx.sample({"coq_case": cases[i][:300], "meta": [str(x)[:120] for x in meta[i]]})
-    import os, time
-    if os.environ.get("C09_DEBUG"):
+    import os
+    if os.environ.get("C09_DEBUG"):          # development aid: dump the generated case terms
         with open(os.environ["C09_DEBUG"], "w") as f:
-            for c_, m_ in zip(cases, meta):
+            for c_ in cases:
                 f.write(c_ + "\n")
-        print("phase python done at %.1fs" % (time.time() - ctx.t0))
     ev = lib.CoqEval(["From Model Require Import Base PyVal C09Jwt C09Cases."], "c09case", "c09_check", "c09_show",
-                     shard=120, max_chars=400000)
-    res = ev.run(cases)
+                     shard=150, max_chars=90000, preamble=preamble())
+    res = run_eval(ev, cases)
     ctx.coverage["traces_validated_against_impl"] = res["evaluated"]
     ctx.coverage["disagreements_checked"] = len(res["failing"])
     direct = len(ctx.violations)
@@ -990,7 +1121,12 @@ def replay(path):
         print("decode ->", d if d[0] == "err" else ("claims", d[1].claims))
         return 0 if d[0] == "err" and isinstance(d[1], InvalidPayloadError) else 1
     if kind in ("tamper", "wrong-key"):
-        print("the keys of the recorded run are not kept; re-run ./check C09 to regenerate the witness")
-        return 1
+        from joserfc.jwk import JWKRegistry
+        tname, kind_, base, fam, added = tr[r["transport"]]
+        key = JWKRegistry.import_key(r["jwk"])
+        reg = W.registry(kind_, base, True)
+        d = call(jwt.decode, r["token"], key, registry=reg)
+        print("decode ->", d if d[0] == "err" else ("claims", d[1].claims))
+        return 1 if d[0] == "ok" or isinstance(d[1], InvalidPayloadError) else 0
     print("see the replay file for the failing case")
     return 1
